@@ -17,6 +17,7 @@ EXPLANATION = (
 RULE = "one obligation per AllAttemptsFailed construction, per spawned attempt body, per loop / counter site, per Ok edge of a received result"
 TRUSTED = ["tokio mpsc channel (recv() == None iff all senders dropped and buffer empty)", "tokio::spawn", "tokio::select! macro expansion"]
 ASSUMPTIONS = ["max_hedged_attempts is the public configuration name of the bound"]
+CONFIG_CRATES = ["tower_resilience_hedge"]
 TECHNIQUE = "static analysis of built MIR: evidence rule (edge dominance on channel closure), counting-loop recognition, value-flow through the result channel"
 
 CRATE = "tower_resilience_hedge"
